@@ -137,6 +137,16 @@ func propList(s string) []string {
 	return out
 }
 
+// externScope: an extern declared in a package's contract file holds for the functions of that
+// package only (its scope is the package directory relative to the repository); declarations in
+// /verif/spec hold everywhere (empty scope).
+func externScope(file, repo string) string {
+	if !strings.HasPrefix(file, repo+"/") {
+		return ""
+	}
+	return filepath.Dir(strings.TrimPrefix(file, repo+"/"))
+}
+
 func hasProp(ct *Contract, id string) bool {
 	for _, p := range propList(ct.Property) {
 		if p == id {
@@ -293,15 +303,16 @@ func runCheck(o checkOpts) *checkResult {
 	w := NewWorld(o.repo)
 	for _, sf := range specs {
 		if strings.HasPrefix(sf.Name, "extern:") {
-			w.externFrames[strings.TrimPrefix(sf.Name, "extern:")] = sf.Reason
+			key := externScope(sf.File, o.repo) + "|" + strings.TrimPrefix(sf.Name, "extern:")
+			w.externFrames[key] = sf.Reason
 			if sf.Lemma {
-				w.externFresh[strings.TrimPrefix(sf.Name, "extern:")] = true
+				w.externFresh[key] = true
 			}
 			if len(sf.PTypes) == 1 && sf.PTypes[0] == "pure" {
-				w.externPure[strings.TrimPrefix(sf.Name, "extern:")] = true
+				w.externPure[key] = true
 			}
 			if len(sf.PTypes) == 1 && sf.PTypes[0] == "old" {
-				w.externOld[strings.TrimPrefix(sf.Name, "extern:")] = true
+				w.externOld[key] = true
 			}
 			continue
 		}
@@ -431,8 +442,9 @@ func runCheck(o checkOpts) *checkResult {
 			undec = append(undec, ob)
 		}
 	}
-	if len(undec) > 0 && o.timeout < 60 {
-		solveAll(undec, 60, 8)
+	if len(undec) > 0 && o.timeout < 150 {
+		// few, long queries: less parallelism so that they do not starve each other
+		solveAll(undec, 150*timeScale, 6)
 	}
 	res.allObls = obls
 
@@ -648,15 +660,16 @@ func cmdDump(args []string) int {
 	w := NewWorld(*repo)
 	for _, sf := range specs {
 		if strings.HasPrefix(sf.Name, "extern:") {
-			w.externFrames[strings.TrimPrefix(sf.Name, "extern:")] = sf.Reason
+			key := externScope(sf.File, *repo) + "|" + strings.TrimPrefix(sf.Name, "extern:")
+			w.externFrames[key] = sf.Reason
 			if sf.Lemma {
-				w.externFresh[strings.TrimPrefix(sf.Name, "extern:")] = true
+				w.externFresh[key] = true
 			}
 			if len(sf.PTypes) == 1 && sf.PTypes[0] == "pure" {
-				w.externPure[strings.TrimPrefix(sf.Name, "extern:")] = true
+				w.externPure[key] = true
 			}
 			if len(sf.PTypes) == 1 && sf.PTypes[0] == "old" {
-				w.externOld[strings.TrimPrefix(sf.Name, "extern:")] = true
+				w.externOld[key] = true
 			}
 			continue
 		}
